@@ -2,6 +2,7 @@ package main
 
 import (
 	"fmt"
+	"go/ast"
 	"go/token"
 	"go/types"
 	"regexp"
@@ -115,6 +116,19 @@ func (fr *Frame) step(st *State, ins ssa.Instruction) bool {
 	r := fr.r
 	switch in := ins.(type) {
 	case *ssa.DebugRef:
+		// remember which SSA value a source variable currently denotes (for contract expressions)
+		if id, ok := in.Expr.(*ast.Ident); ok && in.X != nil {
+			if _, isFn := in.X.(*ssa.Function); !isFn {
+				if v, ok := fr.vals[in.X]; ok {
+					v.T = in.X.Type()
+					if in.IsAddr {
+						fr.dbg["&"+id.Name] = v
+					} else {
+						fr.dbg[id.Name] = v
+					}
+				}
+			}
+		}
 		return true
 	case *ssa.Alloc:
 		et := in.Type().(*types.Pointer).Elem()
